@@ -191,6 +191,21 @@ fn c11_int_div_rem_equation_small() {
     assert!(abs_r < abs_b);
     assert!(r == 0 || ((r < 0) == (a < 0)));
 }
+//@ C11 c11_int_div_rem_equation_64k thorough default,bounded BOUNDED |a|,|b| <= 65536: the defining equation a = q*b + r with |r| < |b| and sign(r) = sign(a)
+#[kani::proof]
+fn c11_int_div_rem_equation_64k() {
+    let a: i32 = kani::any();
+    let b: i32 = kani::any();
+    kani::assume(b != 0 && b >= -65536 && b <= 65536);
+    kani::assume(a >= -65536 && a <= 65536);
+    let q = int_result(B::Div, a, b).expect("a / b has a value when b != 0");
+    let r = int_result(B::Rem, a, b).expect("a % b has a value when b != 0");
+    assert!((q as i64) * (b as i64) + (r as i64) == a as i64);
+    let abs_b: i64 = if b < 0 { -(b as i64) } else { b as i64 };
+    let abs_r: i64 = if r < 0 { -(r as i64) } else { r as i64 };
+    assert!(abs_r < abs_b);
+    assert!(r == 0 || ((r < 0) == (a < 0)));
+}
 //@ C11 c11_int_div_rem_equation_small_b thorough default,bounded BOUNDED all a, |b| <= 16: the same defining equation
 #[kani::proof]
 fn c11_int_div_rem_equation_small_b() {
